@@ -143,6 +143,7 @@ theorem zipOne_short (fs : FS) (root : P) (mask : Nat) (e : Entry) (hs : e.short
   split
   · simp [hs]
   · rename_i h; exact absurd h hk
+  · rfl
   · split
     · rfl
     split
